@@ -51,11 +51,22 @@ def _is_csv_reader(ctx, f, n):
     return bool(r and r[0] == 'external' and r[1] == 'csv.reader')
 
 
-def reader_of_entry(ctx, entry):
+def reader_of_entry(ctx, entry, _depth=0):
     """The csv.reader call that produces the rows handed to self.run(...) by an import entry point, found through at
     most one private helper: -> (function containing the call, call node, stream expression in the entry's terms) or None."""
     env = G.single_assignments(entry.node)
     runs = [c for c in walk_local(entry.node) if isinstance(c, ast.Call) and src(c.func) == 'self.run' and c.args]
+    if not runs and _depth < 2 and entry.cls is not None:
+        # the entry point delegates to another import method of the same object (import_file reads the text and calls
+        # import_string): the reader of that method is the reader of this one
+        for ret in [n for n in walk_local(entry.node) if isinstance(n, ast.Return) and isinstance(n.value, ast.Call)]:
+            c = ret.value
+            if isinstance(c.func, ast.Attribute) and F.is_name(c.func.value, 'self'):
+                h = ctx.prog.find_method(entry.cls, c.func.attr)
+                if h is not None and h is not entry:
+                    r = reader_of_entry(ctx, h, _depth + 1)
+                    if r is not None:
+                        return r
     for rc in runs:
         origin = G.substitute(rc.args[0], env)
         if _is_csv_reader(ctx, entry, origin):
